@@ -55,15 +55,16 @@ Section VCurve.
   Inductive vresult := VPass | VFit (z : list F) (lopt : F) | VStuck.
 
   (** symmetric: every grid lambda is solved independently with the validity weights *)
+  Definition optv_core (y w : list F) (llas : list F) : vresult :=
+    let zs := map (fun l => ws2d O y (fpow10 O l) w) llas in
+    match lopt_of llas (map (log_fit w y) zs) (map log_pen zs) with
+    | Some lopt => VFit (ws2d O y lopt w) lopt
+    | None => VStuck
+    end.
+
   Definition ws2doptv (y : list F) (nodata : F) (llas : list F) : vresult :=
     let w := weights_eq O nodata y in
-    if fltb O (f1 O) (fsum O w) then
-      let zs := map (fun l => ws2d O y (fpow10 O l) w) llas in
-      match lopt_of llas (map (log_fit w y) zs) (map log_pen zs) with
-      | Some lopt => VFit (ws2d O y lopt w) lopt
-      | None => VStuck
-      end
-    else VPass.
+    if fltb O (f1 O) (fsum O w) then optv_core y w llas else VPass.
 
   (** asymmetric sweep: the iterate z is carried from one grid lambda to the next *)
   Fixpoint sweep (p p1 : F) (w y : list F) (llas : list F) (z : list F) : list (list F) :=
